@@ -1021,3 +1021,558 @@ Proof.
   intros Hf1 Hf2 Hf3 Hg1 Hg2 Hg3 E.
   rewrite <- (descriptor_faithful f Hf1 Hf2 Hf3), <- (descriptor_faithful g Hg1 Hg2 Hg3), E. reflexivity.
 Qed.
+
+(* the unchanged descriptor format cannot state two includes of one base name *)
+Local Open Scope string_scope.
+Definition dup_file : file :=
+  File (B "main.thrift")
+       [Include (B "x/shared.thrift") (Some (B "x/shared.thrift")) None;
+        Include (B "y/shared.thrift") (Some (B "y/shared.thrift")) None]
+       [] [] [] [] [] [] [] [] [] None.
+Local Close Scope string_scope.
+
+Theorem includes_same_basename_refuted :
+  exists f, file_annos_ok f = true /\ includes_plain f = true /\ distinct_basenames f = false /\
+            x_includes (project_d (descriptor_of f)) <> x_includes (project_a f).
+Proof.
+  exists dup_file. repeat split; try (vm_compute; reflexivity). vm_compute. intro H. discriminate H.
+Qed.
+
+(* ================================================================ 4. lookups *)
+
+(* a program as the parser delivers it: every file once, listed under its own Filename *)
+Definition prog_ok (P : program) : bool :=
+  nodupb (map fst P) && forallb (fun nf => beqb (fst nf) (f_filename (snd nf))) P.
+
+Lemma lookup_fd_registry P path :
+  prog_ok P = true -> lookup_fd (registry_of P) path = omap descriptor_of (prog_file P path).
+Proof.
+  unfold prog_ok. intro H. apply andb_true_iff in H as [_ H]. unfold lookup_fd, registry_of, prog_file.
+  induction P as [|[k f] P IH]; [reflexivity|]. cbn [forallb fst snd] in H. apply andb_true_iff in H as [Hk HP].
+  apply beqb_true in Hk. cbn [map find lookup snd]. unfold descriptor_of at 1. cbn [fdc_filepath].
+  rewrite <- Hk, (beqb_sym k path). destruct (beqb path k); [reflexivity|]. apply IH. exact HP.
+Qed.
+
+Lemma parse_alias_plain n : no_byte dot n = true -> parse_alias n = ([], n).
+Proof. intro H. unfold parse_alias. rewrite (last_index_split_none dot n H). reflexivity. Qed.
+
+Lemma parse_alias_qualified pre n : no_byte dot n = true -> parse_alias (pre ++ dot :: n) = (pre, n).
+Proof. intro H. unfold parse_alias. rewrite (last_index_split_last dot pre n H). reflexivity. Qed.
+
+Lemma is_empty_false (s : bytes) : s <> [] -> is_empty s = false.
+Proof. destruct s; [congruence|reflexivity]. Qed.
+
+Lemma get_descriptor_local {A} (lk : fdesc -> bytes -> option A) reg f n :
+  n <> [] -> no_byte dot n = true -> get_descriptor lk reg f n = lk f n.
+Proof.
+  intros Hn Hd. unfold get_descriptor. rewrite (is_empty_false n Hn), (parse_alias_plain n Hd). reflexivity.
+Qed.
+
+Lemma get_descriptor_qualified {A} (lk : fdesc -> bytes -> option A) reg f pre n :
+  pre <> [] -> n <> [] -> no_byte dot n = true ->
+  get_descriptor lk reg f (pre ++ dot :: n) =
+  match get_include_fd reg f pre with Some g => lk g n | None => None end.
+Proof.
+  intros Hp Hn Hd. unfold get_descriptor.
+  rewrite is_empty_false by (destruct pre; discriminate).
+  rewrite (parse_alias_qualified pre n Hd), (is_empty_false pre Hp), (is_empty_false n Hn). reflexivity.
+Qed.
+
+Lemma lookup_map_unique {A B} (key : A -> bytes) (val : A -> B) l x :
+  NoDup (map key l) -> In x l -> lookup (key x) (map (fun y => (key y, val y)) l) = Some (val x).
+Proof.
+  induction l as [|y l IH]; intros Hnd Hin; [destruct Hin|]. cbn [map lookup]. inversion Hnd as [|? ? Hy Hl]; subst.
+  destruct Hin as [->|Hin]; [rewrite beqb_refl; reflexivity|].
+  destruct (beqb (key x) (key y)) eqn:E; [|apply IH; assumption].
+  apply beqb_true in E. exfalso. apply Hy. rewrite <- E. apply in_map. exact Hin.
+Qed.
+
+(* the descriptor of the file an include prefix stands for *)
+Lemma include_fd_right P f i gname g :
+  prog_ok P = true -> distinct_basenames f = true ->
+  In i (f_includes f) -> in_ref i = Some gname -> gname <> [] -> include_alias gname <> [] ->
+  prog_file P gname = Some g ->
+  get_include_fd (registry_of P) (descriptor_of f) (include_alias gname) = Some (descriptor_of g).
+Proof.
+  intros HP Hd Hin Href Hg Ha Hfile. unfold get_include_fd. rewrite (is_empty_false _ Ha).
+  unfold descriptor_of at 1. cbn [fdc_includes]. unfold includes_map, distinct_basenames in *.
+  apply nodupb_NoDup in Hd. rewrite (fold_update_map _ _ _ Hd).
+  assert (Ep : include_path i = gname) by (unfold include_path; rewrite Href; reflexivity).
+  rewrite <- Ep at 1.
+  rewrite (lookup_map_unique (fun i => include_alias (include_path i)) include_path (f_includes f) i Hd Hin).
+  rewrite Ep, (is_empty_false _ Hg), (lookup_fd_registry P gname HP), Hfile. reflexivity.
+Qed.
+
+Section LookupByName.
+  Context {A D : Type} (lk : fdesc -> bytes -> option D) (mk : bytes -> A -> D) (afind : file -> bytes -> option A).
+  (* the descriptor-side search mirrors the AST-side search, file by file *)
+  Hypothesis mirrors : forall g n, lk (descriptor_of g) n = omap (mk (f_filename g)) (afind g n).
+
+  (* an unqualified name finds the definition of that name in the file itself *)
+  Theorem lookup_local P f n :
+    n <> [] -> no_byte dot n = true ->
+    get_descriptor lk (registry_of P) (descriptor_of f) n = omap (mk (f_filename f)) (afind f n).
+  Proof. intros Hn Hd. rewrite get_descriptor_local by assumption. apply mirrors. Qed.
+
+  (* a name written through the prefix of an include finds the definition in the included file *)
+  Theorem lookup_through_include P f i gname g n :
+    prog_ok P = true -> distinct_basenames f = true ->
+    In i (f_includes f) -> in_ref i = Some gname -> gname <> [] -> include_alias gname <> [] ->
+    prog_file P gname = Some g -> n <> [] -> no_byte dot n = true ->
+    get_descriptor lk (registry_of P) (descriptor_of f) (include_alias gname ++ dot :: n) =
+    omap (mk (f_filename g)) (afind g n).
+  Proof.
+    intros HP Hd Hin Href Hg Ha Hfile Hn Hnd.
+    rewrite get_descriptor_qualified by assumption.
+    rewrite (include_fd_right P f i gname g HP Hd Hin Href Hg Ha Hfile). apply mirrors.
+  Qed.
+End LookupByName.
+
+Lemma first_named_map {A D} (key : D -> bytes) (akey : A -> bytes) (mk : A -> D) l n :
+  (forall x, key (mk x) = akey x) -> first_named key (map mk l) n = omap mk (find_by akey n l).
+Proof.
+  intro H. unfold first_named. induction l as [|x l IH]; [reflexivity|]. cbn [map find find_by].
+  rewrite H. destruct (beqb (akey x) n); [reflexivity|exact IH].
+Qed.
+
+Lemma mirrors_struct g n :
+  first_named sd_name (fdc_structs (descriptor_of g)) n = omap (struct_desc (f_filename g)) (find_struct g n).
+Proof. apply first_named_map. reflexivity. Qed.
+Lemma mirrors_union g n :
+  first_named sd_name (fdc_unions (descriptor_of g)) n = omap (struct_desc (f_filename g)) (find_union g n).
+Proof. apply first_named_map. reflexivity. Qed.
+Lemma mirrors_exception g n :
+  first_named sd_name (fdc_exceptions (descriptor_of g)) n = omap (struct_desc (f_filename g)) (find_exception g n).
+Proof. apply first_named_map. reflexivity. Qed.
+Lemma mirrors_enum g n :
+  first_named ed_name (fdc_enums (descriptor_of g)) n = omap (enum_desc (f_filename g)) (find_enum g n).
+Proof. apply first_named_map. reflexivity. Qed.
+Lemma mirrors_typedef g n :
+  first_named tdd_alias (fdc_typedefs (descriptor_of g)) n = omap (typedef_desc (f_filename g)) (find_typedef g n).
+Proof. apply first_named_map. reflexivity. Qed.
+Lemma mirrors_const g n :
+  first_named cd_name (fdc_consts (descriptor_of g)) n = omap (const_desc (f_filename g)) (find_constant g n).
+Proof. apply first_named_map. reflexivity. Qed.
+Lemma mirrors_service g n :
+  first_named svd_name (fdc_services (descriptor_of g)) n = omap (service_desc (f_filename g)) (find_service g n).
+Proof. apply first_named_map. reflexivity. Qed.
+
+(* fields by name and by id, methods by name: the first entry with that name / id, which is THE
+   entry when names / ids are unique *)
+Lemma field_by_name p s n :
+  get_field_by_name (struct_desc p s) n = omap (field_desc p) (find_field s n).
+Proof. unfold get_field_by_name, struct_desc, find_field. cbn [sd_fields]. apply first_named_map. reflexivity. Qed.
+
+Lemma find_map_mirror {A D} (mk : A -> D) (q : D -> bool) (p : A -> bool) l :
+  (forall x, q (mk x) = p x) -> find q (map mk l) = omap mk (find p l).
+Proof. intro H. induction l as [|x l IH]; [reflexivity|]. cbn [map find]. rewrite H. destruct (p x); [reflexivity|exact IH]. Qed.
+
+Lemma field_by_id p s id :
+  get_field_by_id (struct_desc p s) id = omap (field_desc p) (find (fun x => fd_id x =? id) (sl_fields s)).
+Proof. unfold get_field_by_id, struct_desc. cbn [sd_fields]. apply find_map_mirror. reflexivity. Qed.
+
+Lemma find_unique {A} (p : A -> bool) (key : A -> Z) l x :
+  NoDup (map key l) -> In x l -> (forall y, p y = (key y =? key x)) -> find p l = Some x.
+Proof.
+  induction l as [|y l IH]; intros Hnd Hin Hp; [destruct Hin|]. cbn [find map] in *. inversion Hnd as [|? ? Hy Hl]; subst.
+  destruct Hin as [->|Hin]; [rewrite Hp, Z.eqb_refl; reflexivity|].
+  rewrite Hp. destruct (Z.eqb_spec (key y) (key x)) as [E|E]; [|apply IH; assumption].
+  exfalso. apply Hy. rewrite E. apply in_map. exact Hin.
+Qed.
+
+Theorem field_by_id_right p s x :
+  NoDup (map fd_id (sl_fields s)) -> In x (sl_fields s) ->
+  get_field_by_id (struct_desc p s) (fd_id x) = Some (field_desc p x).
+Proof.
+  intros Hnd Hin. rewrite field_by_id. rewrite (find_unique _ fd_id (sl_fields s) x Hnd Hin); [reflexivity|]. reflexivity.
+Qed.
+
+Lemma find_by_unique {A} (key : A -> bytes) l x :
+  NoDup (map key l) -> In x l -> find_by key (key x) l = Some x.
+Proof.
+  induction l as [|y l IH]; intros Hnd Hin; [destruct Hin|]. cbn [find_by map] in *. inversion Hnd as [|? ? Hy Hl]; subst.
+  destruct Hin as [->|Hin]; [rewrite beqb_refl; reflexivity|].
+  destruct (beqb (key y) (key x)) eqn:E; [|apply IH; assumption].
+  apply beqb_true in E. exfalso. apply Hy. rewrite E. apply in_map. exact Hin.
+Qed.
+
+Theorem field_by_name_right p s x :
+  NoDup (map fd_name (sl_fields s)) -> In x (sl_fields s) ->
+  get_field_by_name (struct_desc p s) (fd_name x) = Some (field_desc p x).
+Proof.
+  intros Hnd Hin. rewrite field_by_name. unfold find_field. rewrite (find_by_unique fd_name _ x Hnd Hin). reflexivity.
+Qed.
+
+Theorem method_by_name_right p s fn :
+  NoDup (map fn_name (sv_functions s)) -> In fn (sv_functions s) ->
+  get_method_by_name (service_desc p s) (fn_name fn) = Some (method_desc p fn).
+Proof.
+  intros Hnd Hin. unfold get_method_by_name, service_desc. cbn [svd_methods].
+  rewrite (first_named_map md_name fn_name (method_desc p)) by reflexivity.
+  rewrite (find_by_unique fn_name _ fn Hnd Hin). reflexivity.
+Qed.
+
+(* a lookup without a file path: when exactly one registered file answers, that answer is the
+   result, wherever the file stands in the registry (the Go code ranges over a map) *)
+Lemma lookup_first_unique {A} (get : registry -> fdesc -> bytes -> option A) reg name d0 x : forall regs,
+  In d0 regs -> get reg d0 name = Some x ->
+  (forall d, In d regs -> get reg d name <> None -> d = d0) ->
+  (fix go (l : list fdesc) : option A :=
+     match l with
+     | [] => None
+     | f :: r => match get reg f name with Some x => Some x | None => go r end
+     end) regs = Some x.
+Proof.
+  induction regs as [|d r IH]; intros Hin H0 Huniq; [destruct Hin|].
+  destruct (get reg d name) as [y|] eqn:E.
+  - assert (d = d0) by (apply Huniq; [left; reflexivity|congruence]). subst d. congruence.
+  - destruct Hin as [->|Hin]; [congruence|]. apply IH; [exact Hin|exact H0|]. intros d' Hd'. apply Huniq. right. exact Hd'.
+Qed.
+
+Theorem lookup_without_path {A} (get : registry -> fdesc -> bytes -> option A) reg name d0 x :
+  In d0 reg -> get reg d0 name = Some x ->
+  (forall d, In d reg -> get reg d name <> None -> d = d0) ->
+  lookup_in get reg name [] = Some x.
+Proof. intros Hin H0 Huniq. unfold lookup_in. cbn [is_empty]. apply (lookup_first_unique get reg name d0 x reg); assumption. Qed.
+
+Theorem lookup_with_path {A} (get : registry -> fdesc -> bytes -> option A) P path f name :
+  prog_ok P = true -> path <> [] -> prog_file P path = Some f ->
+  lookup_in get (registry_of P) name path = get (registry_of P) (descriptor_of f) name.
+Proof.
+  intros HP Hp Hf. unfold lookup_in. rewrite (is_empty_false path Hp), (lookup_fd_registry P path HP), Hf. reflexivity.
+Qed.
+
+(* ================================================================ 5. Go types *)
+
+Lemma gkind_eqb_eq a b : gkind_eqb a b = true <-> a = b.
+Proof. destruct a, b; cbn; split; congruence. Qed.
+
+Lemma dkey_eqb_eq (a b : dkey) : dkey_eqb a b = true <-> a = b.
+Proof.
+  destruct a as [[p k] i], b as [[q k'] j]. unfold dkey_eqb. cbn [fst snd].
+  rewrite !andb_true_iff, beqb_true, gkind_eqb_eq, Nat.eqb_eq. split; [intros [[-> ->] ->]; reflexivity|].
+  intro H. injection H as -> -> ->. tauto.
+Qed.
+
+Lemma dkey_eqb_refl k : dkey_eqb k k = true.
+Proof. apply dkey_eqb_eq. reflexivity. Qed.
+Lemma dkey_eqb_neq a b : a <> b -> dkey_eqb a b = false.
+Proof. intro H. destruct (dkey_eqb a b) eqn:E; [apply dkey_eqb_eq in E; contradiction|reflexivity]. Qed.
+
+Definition kind_of (k : dkey) : gkind := snd (fst k).
+
+Section GoTypeFacts.
+  Context {G : Type} (geqb : G -> G -> bool).
+  Hypothesis geqb_spec : forall a b, geqb a b = true <-> a = b.
+
+  Lemma geqb_refl g : geqb g g = true.
+  Proof. apply geqb_spec. reflexivity. Qed.
+
+  Definition getf (m : list (dkey * G)) (k : dkey) : option G := omap snd (find (fun e => dkey_eqb (fst e) k) m).
+  Definition getb (m : list (gkind * G * dkey)) (kd : gkind) (g : G) : option dkey :=
+    omap snd (find (fun e => gkind_eqb (fst (fst e)) kd && geqb (snd (fst e)) g) m).
+
+  Lemma getf_put_same k g m : getf (put_fwd k g m) k = Some g.
+  Proof.
+    unfold getf. induction m as [|[k' g'] m IH]; cbn [put_fwd find fst].
+    - rewrite dkey_eqb_refl. reflexivity.
+    - destruct (dkey_eqb k k') eqn:E; cbn [find fst].
+      + rewrite dkey_eqb_refl. reflexivity.
+      + assert (E' : dkey_eqb k' k = false).
+        { apply dkey_eqb_neq. intro H. subst. rewrite dkey_eqb_refl in E. discriminate. }
+        rewrite E'. exact IH.
+  Qed.
+
+  Lemma getf_put_other k k' g m : k <> k' -> getf (put_fwd k g m) k' = getf m k'.
+  Proof.
+    intro Hne. unfold getf. induction m as [|[k1 g1] m IH]; cbn [put_fwd find fst].
+    - rewrite (dkey_eqb_neq k k' Hne). reflexivity.
+    - destruct (dkey_eqb k k1) eqn:E; cbn [find fst].
+      + apply dkey_eqb_eq in E. subst k1. rewrite (dkey_eqb_neq k k' Hne). reflexivity.
+      + destruct (dkey_eqb k1 k'); [reflexivity|exact IH].
+  Qed.
+
+  Definition same_bkey (kd : gkind) (g : G) (kd' : gkind) (g' : G) : bool := gkind_eqb kd kd' && geqb g g'.
+  Lemma same_bkey_eq kd g kd' g' : same_bkey kd g kd' g' = true <-> kd = kd' /\ g = g'.
+  Proof. unfold same_bkey. rewrite andb_true_iff, gkind_eqb_eq, geqb_spec. tauto. Qed.
+
+  Lemma getb_put_same kd g k m : getb (put_bwd geqb kd g k m) kd g = Some k.
+  Proof.
+    unfold getb. induction m as [|[[kd' g'] k'] m IH]; cbn [put_bwd find fst snd].
+    - assert (E : gkind_eqb kd kd = true) by (apply gkind_eqb_eq; reflexivity). rewrite E, geqb_refl. reflexivity.
+    - destruct (gkind_eqb kd kd' && geqb g g') eqn:E; cbn [find fst snd].
+      + assert (E1 : gkind_eqb kd kd = true) by (apply gkind_eqb_eq; reflexivity). rewrite E1, geqb_refl. reflexivity.
+      + assert (E' : gkind_eqb kd' kd && geqb g' g = false).
+        { destruct (gkind_eqb kd' kd && geqb g' g) eqn:E2; [|reflexivity].
+          apply andb_true_iff in E2 as [A B]. apply gkind_eqb_eq in A. apply geqb_spec in B. subst.
+          assert (X : gkind_eqb kd kd = true) by (apply gkind_eqb_eq; reflexivity). rewrite X, geqb_refl in E. discriminate. }
+        rewrite E'. exact IH.
+  Qed.
+
+  Lemma getb_put_other kd g k kd' g' m :
+    ~ (kd = kd' /\ g = g') -> getb (put_bwd geqb kd g k m) kd' g' = getb m kd' g'.
+  Proof.
+    intro Hne. unfold getb.
+    assert (N : gkind_eqb kd kd' && geqb g g' = false).
+    { destruct (gkind_eqb kd kd' && geqb g g') eqn:E; [|reflexivity]. apply andb_true_iff in E as [A B].
+      apply gkind_eqb_eq in A. apply geqb_spec in B. tauto. }
+    induction m as [|[[kd1 g1] k1] m IH]; cbn [put_bwd find fst snd].
+    - rewrite N. reflexivity.
+    - destruct (gkind_eqb kd kd1 && geqb g g1) eqn:E; cbn [find fst snd].
+      + apply andb_true_iff in E as [A B]. apply gkind_eqb_eq in A. apply geqb_spec in B. subst kd1 g1. rewrite N. reflexivity.
+      + destruct (gkind_eqb kd1 kd' && geqb g1 g'); [reflexivity|exact IH].
+  Qed.
+
+  Lemma register_all_snoc t l k g :
+    register_all geqb t (l ++ [(k, g)]) = register1 geqb (register_all geqb t l) k g.
+  Proof. unfold register_all. rewrite fold_left_app. reflexivity. Qed.
+
+  Lemma go_type_of_getf t k : go_type_of t k = getf (g_fwd t) k.
+  Proof. reflexivity. Qed.
+  Lemma desc_of_go_type_getb t kd g : desc_of_go_type geqb t kd g = getb (g_bwd t) kd g.
+  Proof. reflexivity. Qed.
+
+  (* descriptor |-> its Go type *)
+  Lemma registered_fwd t : forall l k g,
+    NoDup (map fst l) -> In (k, g) l -> go_type_of (register_all geqb t l) k = Some g.
+  Proof.
+    induction l as [|[k1 g1] l IH] using rev_ind; intros k g Hnd Hin; [destruct Hin|].
+    rewrite register_all_snoc, go_type_of_getf. unfold register1. cbn [g_fwd].
+    rewrite map_app in Hnd. cbn [map fst] in Hnd. apply in_app_or in Hin as [Hin|[Heq|[]]].
+    - assert (k1 <> k).
+      { intro E. subst k1. apply NoDup_remove_2 in Hnd. apply Hnd. rewrite app_nil_r. apply (in_map fst) in Hin. exact Hin. }
+      rewrite getf_put_other by assumption. rewrite <- go_type_of_getf. apply IH; [|exact Hin].
+      apply NoDup_remove_1 in Hnd. rewrite app_nil_r in Hnd. exact Hnd.
+    - injection Heq as -> ->. apply getf_put_same.
+  Qed.
+
+  Lemma fwd_untouched t : forall l k, ~ In k (map fst l) -> go_type_of (register_all geqb t l) k = go_type_of t k.
+  Proof.
+    induction l as [|[k1 g1] l IH] using rev_ind; intros k Hn; [reflexivity|].
+    rewrite register_all_snoc, go_type_of_getf. unfold register1. cbn [g_fwd].
+    rewrite map_app, in_app_iff in Hn. cbn [map fst In] in Hn.
+    rewrite getf_put_other by (intro E; apply Hn; right; left; exact E).
+    rewrite <- go_type_of_getf. apply IH. tauto.
+  Qed.
+
+  (* Go type |-> the descriptor it was given to, when it was given once within the kind *)
+  Lemma registered_bwd t : forall l k g,
+    In (k, g) l ->
+    (forall k', In (k', g) l -> kind_of k' = kind_of k -> k' = k) ->
+    desc_of_go_type geqb (register_all geqb t l) (kind_of k) g = Some k.
+  Proof.
+    induction l as [|[k1 g1] l IH] using rev_ind; intros k g Hin Huniq; [destruct Hin|].
+    rewrite register_all_snoc, desc_of_go_type_getb. unfold register1. cbn [g_bwd].
+    destruct (dkey_eqb k1 k && geqb g1 g) eqn:E.
+    - apply andb_true_iff in E as [A B]. apply dkey_eqb_eq in A. apply geqb_spec in B. subst. apply getb_put_same.
+    - rewrite getb_put_other.
+      + rewrite <- desc_of_go_type_getb. apply in_app_or in Hin as [Hin|[Heq|[]]].
+        * apply IH; [exact Hin|]. intros k' Hk'. apply Huniq. apply in_or_app. left. exact Hk'.
+        * injection Heq as -> ->. rewrite dkey_eqb_refl, geqb_refl in E. discriminate.
+      + intros [A B]. subst g1. assert (k1 = k) by (apply Huniq; [apply in_or_app; right; left; reflexivity|exact A]).
+        subst k1. rewrite dkey_eqb_refl, geqb_refl in E. discriminate.
+  Qed.
+
+  (* Go type |-> descriptor |-> Go type is the identity, whatever was registered *)
+  Definition table_inv (t : gtable) : Prop :=
+    forall kd g k, desc_of_go_type geqb t kd g = Some k -> go_type_of t k = Some g /\ kind_of k = kd.
+
+  Lemma table_inv_empty : table_inv gtable_empty.
+  Proof. intros kd g k H. discriminate H. Qed.
+
+  Lemma table_inv_step t k g : table_inv t -> go_type_of t k = None -> table_inv (register1 geqb t k g).
+  Proof.
+    intros Hinv Hfresh kd' g' k' H. rewrite desc_of_go_type_getb in H. unfold register1 in *. cbn [g_bwd g_fwd] in *.
+    rewrite go_type_of_getf. cbn [g_fwd].
+    destruct (same_bkey (snd (fst k)) g kd' g') eqn:E.
+    - apply same_bkey_eq in E as [<- <-]. rewrite getb_put_same in H. injection H as <-.
+      split; [apply getf_put_same|reflexivity].
+    - rewrite getb_put_other in H by (intro X; apply same_bkey_eq in X; congruence).
+      rewrite <- desc_of_go_type_getb in H. destruct (Hinv kd' g' k' H) as [Hf Hk].
+      split; [|exact Hk]. rewrite getf_put_other; [exact Hf|]. intro X. subst k'. congruence.
+  Qed.
+
+  Lemma table_inv_all t : forall l,
+    table_inv t -> NoDup (map fst l) -> (forall k, In k (map fst l) -> go_type_of t k = None) ->
+    table_inv (register_all geqb t l).
+  Proof.
+    induction l as [|[k1 g1] l IH] using rev_ind; intros Hinv Hnd Hfresh; [exact Hinv|].
+    rewrite register_all_snoc. rewrite map_app in Hnd, Hfresh. cbn [map fst] in Hnd, Hfresh.
+    apply table_inv_step.
+    - apply IH; [exact Hinv| |].
+      + apply NoDup_remove_1 in Hnd. rewrite app_nil_r in Hnd. exact Hnd.
+      + intros k Hk. apply Hfresh. apply in_or_app. left. exact Hk.
+    - rewrite fwd_untouched.
+      + apply Hfresh. apply in_or_app. right. left. reflexivity.
+      + apply NoDup_remove_2 in Hnd. rewrite app_nil_r in Hnd. exact Hnd.
+  Qed.
+
+  (* the keys registerGoTypes walks are pairwise distinct *)
+  Lemma keys_of_In p kd n k : In k (keys_of p kd n) -> fst (fst k) = p /\ kind_of k = kd.
+  Proof. unfold keys_of. rewrite in_map_iff. intros [j [<- _]]. split; reflexivity. Qed.
+
+  Lemma keys_of_NoDup p kd n : NoDup (keys_of p kd n).
+  Proof.
+    unfold keys_of. apply FinFun.Injective_map_NoDup; [|apply seq_NoDup]. intros a b H. injection H as ->. reflexivity.
+  Qed.
+
+  Lemma NoDup_app_disjoint {A} (a b : list A) : NoDup a -> NoDup b -> (forall x, In x a -> ~ In x b) -> NoDup (a ++ b).
+  Proof.
+    intros Ha Hb Hd. induction Ha as [|x a Hx Ha IH]; [exact Hb|]. cbn [app]. constructor.
+    - rewrite in_app_iff. intros [H|H]; [contradiction|]. exact (Hd x (or_introl eq_refl) H).
+    - apply IH. intros y Hy. apply Hd. right. exact Hy.
+  Qed.
+
+  Lemma all_keys_NoDup d : NoDup (all_keys d).
+  Proof.
+    unfold all_keys. apply NoDup_app_disjoint; [apply keys_of_NoDup| |].
+    - apply NoDup_app_disjoint; [apply keys_of_NoDup|apply keys_of_NoDup|].
+      intros x H1 H2. apply keys_of_In in H1 as [_ A]. apply keys_of_In in H2 as [_ B]. congruence.
+    - intros x H1 H2. apply keys_of_In in H1 as [_ A]. apply in_app_or in H2 as [H2|H2]; apply keys_of_In in H2 as [_ B]; congruence.
+  Qed.
+
+  Lemma combine_keys_NoDup {A B} (ks : list A) (gs : list B) : NoDup ks -> NoDup (map fst (combine ks gs)).
+  Proof.
+    intro H. revert gs. induction H as [|k ks Hk Hnd IH]; intro gs; [constructor|].
+    destruct gs as [|g gs]; [constructor|]. cbn [combine map fst]. constructor; [|apply IH].
+    intro Hin. apply Hk. apply in_map_iff in Hin as [[k' g'] [E Hin]]. cbn [fst] in E. subst k'.
+    apply in_combine_l in Hin. exact Hin.
+  Qed.
+
+  (* registering the Go types of one file into a table that does not know the file yet *)
+  Theorem go_type_table_spec t d gs t' :
+    table_inv t -> (forall k, In k (all_keys d) -> go_type_of t k = None) ->
+    go_type_table geqb t d gs = Some t' ->
+    table_inv t' /\
+    (forall k g, In (k, g) (combine (all_keys d) gs) ->
+       go_type_of t' k = Some g /\
+       ((forall k', In (k', g) (combine (all_keys d) gs) -> kind_of k' = kind_of k -> k' = k) ->
+        desc_of_go_type geqb t' (kind_of k) g = Some k)).
+  Proof.
+    intros Hinv Hfresh H. unfold go_type_table in H.
+    destruct (List.length gs <? List.length (all_keys d))%nat; [discriminate|]. injection H as <-.
+    pose proof (combine_keys_NoDup (all_keys d) gs (all_keys_NoDup d)) as Hnd.
+    split.
+    - apply table_inv_all; [exact Hinv|exact Hnd|]. intros k Hk. apply Hfresh.
+      apply in_map_iff in Hk as [[k' g'] [E Hin]]. cbn [fst] in E. subst k'. apply in_combine_l in Hin. exact Hin.
+    - intros k g Hin. split; [apply registered_fwd; assumption|]. intro Huniq. apply registered_bwd; assumption.
+  Qed.
+
+  Corollary go_type_bijection d gs t' :
+    go_type_table geqb gtable_empty d gs = Some t' ->
+    (* Go type |-> descriptor |-> Go type *)
+    (forall kd g k, desc_of_go_type geqb t' kd g = Some k -> go_type_of t' k = Some g /\ kind_of k = kd) /\
+    (* the k-th descriptor has the k-th type; and back, when no other descriptor of the kind has it *)
+    (forall k g, In (k, g) (combine (all_keys d) gs) ->
+       go_type_of t' k = Some g /\
+       ((forall k', In (k', g) (combine (all_keys d) gs) -> kind_of k' = kind_of k -> k' = k) ->
+        desc_of_go_type geqb t' (kind_of k) g = Some k)).
+  Proof. intro H. apply (go_type_table_spec gtable_empty d gs t' table_inv_empty); [intros; reflexivity|exact H]. Qed.
+End GoTypeFacts.
+
+(* ================================================================ 6. bundles stated in Props/C15.v *)
+
+Theorem lookup_by_name_local P f n :
+  n <> [] -> no_byte dot n = true ->
+  get_struct (registry_of P) (descriptor_of f) n = omap (struct_desc (f_filename f)) (find_struct f n) /\
+  get_union (registry_of P) (descriptor_of f) n = omap (struct_desc (f_filename f)) (find_union f n) /\
+  get_exception (registry_of P) (descriptor_of f) n = omap (struct_desc (f_filename f)) (find_exception f n) /\
+  get_enum (registry_of P) (descriptor_of f) n = omap (enum_desc (f_filename f)) (find_enum f n) /\
+  get_typedef (registry_of P) (descriptor_of f) n = omap (typedef_desc (f_filename f)) (find_typedef f n) /\
+  get_const (registry_of P) (descriptor_of f) n = omap (const_desc (f_filename f)) (find_constant f n) /\
+  get_service (registry_of P) (descriptor_of f) n = omap (service_desc (f_filename f)) (find_service f n).
+Proof.
+  intros Hn Hd. repeat split.
+  - apply (lookup_local _ _ _ mirrors_struct); assumption.
+  - apply (lookup_local _ _ _ mirrors_union); assumption.
+  - apply (lookup_local _ _ _ mirrors_exception); assumption.
+  - apply (lookup_local _ _ _ mirrors_enum); assumption.
+  - apply (lookup_local _ _ _ mirrors_typedef); assumption.
+  - apply (lookup_local _ _ _ mirrors_const); assumption.
+  - apply (lookup_local _ _ _ mirrors_service); assumption.
+Qed.
+
+Theorem lookup_by_name_through_include P f i gname g n :
+  prog_ok P = true -> distinct_basenames f = true ->
+  In i (f_includes f) -> in_ref i = Some gname -> gname <> [] -> include_alias gname <> [] ->
+  prog_file P gname = Some g -> n <> [] -> no_byte dot n = true ->
+  let q := include_alias gname ++ dot :: n in
+  get_struct (registry_of P) (descriptor_of f) q = omap (struct_desc (f_filename g)) (find_struct g n) /\
+  get_union (registry_of P) (descriptor_of f) q = omap (struct_desc (f_filename g)) (find_union g n) /\
+  get_exception (registry_of P) (descriptor_of f) q = omap (struct_desc (f_filename g)) (find_exception g n) /\
+  get_enum (registry_of P) (descriptor_of f) q = omap (enum_desc (f_filename g)) (find_enum g n) /\
+  get_typedef (registry_of P) (descriptor_of f) q = omap (typedef_desc (f_filename g)) (find_typedef g n) /\
+  get_const (registry_of P) (descriptor_of f) q = omap (const_desc (f_filename g)) (find_constant g n) /\
+  get_service (registry_of P) (descriptor_of f) q = omap (service_desc (f_filename g)) (find_service g n).
+Proof.
+  intros HP Hd Hin Href Hg Ha Hfile Hn Hnd q. repeat split.
+  - apply (lookup_through_include _ _ _ mirrors_struct P f i gname g n); assumption.
+  - apply (lookup_through_include _ _ _ mirrors_union P f i gname g n); assumption.
+  - apply (lookup_through_include _ _ _ mirrors_exception P f i gname g n); assumption.
+  - apply (lookup_through_include _ _ _ mirrors_enum P f i gname g n); assumption.
+  - apply (lookup_through_include _ _ _ mirrors_typedef P f i gname g n); assumption.
+  - apply (lookup_through_include _ _ _ mirrors_const P f i gname g n); assumption.
+  - apply (lookup_through_include _ _ _ mirrors_service P f i gname g n); assumption.
+Qed.
+
+(* a type expression of file f resolves through the descriptor to the definition in the file the
+   prefix stands for: TypeDescriptor.GetStructDescriptor & co. *)
+Theorem type_target_right {A} (get : registry -> fdesc -> bytes -> option A) P f t :
+  prog_ok P = true -> prog_file P (f_filename f) = Some f ->
+  is_container (ty_name t) || is_basic (ty_name t) = false -> f_filename f <> [] ->
+  type_target get (registry_of P) (type_desc (f_filename f) t) = get (registry_of P) (descriptor_of f) (ty_name t).
+Proof.
+  intros HP Hf Hb Hne. destruct t as [n k v c an cat r td]. unfold type_target. cbn [type_desc tyd_name tyd_filepath ty_name] in *.
+  rewrite Hb, (lookup_fd_registry P _ HP), Hf. reflexivity.
+Qed.
+
+(* the unchanged format loses the include that defines a name when a later include has the same
+   base name: the lookup through the prefix answers nil although the IDL defines the name *)
+Local Open Scope string_scope.
+Definition dup_x : file :=
+  File (B "x/shared.thrift") [] [] [] [] [] [] [StructLike SKStruct (B "OnlyInX") [] [] []] [] [] [] None.
+Definition dup_y : file := empty_file (B "y/shared.thrift").
+Definition dup_program : program := [(B "main.thrift", dup_file); (B "x/shared.thrift", dup_x); (B "y/shared.thrift", dup_y)].
+Theorem lookup_same_basename_refuted :
+  exists P f g n, prog_ok P = true /\ prog_file P (f_filename f) = Some f /\
+    (exists i, In i (f_includes f) /\ in_ref i = Some (f_filename g)) /\
+    prog_file P (f_filename g) = Some g /\ find_struct g n <> None /\
+    get_struct (registry_of P) (descriptor_of f) (include_alias (f_filename g) ++ dot :: n)%list = None.
+Proof.
+  exists dup_program, dup_file, dup_x, (B "OnlyInX").
+  split; [vm_compute; reflexivity|]. split; [vm_compute; reflexivity|].
+  split; [eexists; split; [left; reflexivity|reflexivity]|].
+  split; [vm_compute; reflexivity|]. split; [vm_compute; discriminate|]. vm_compute. reflexivity.
+Qed.
+
+(* ---- the hypotheses are satisfiable ---- *)
+Definition ex_types : file :=
+  File (B "base/types.thrift") [] [] [Namespace (B "go") (B "c15.types") []]
+       [Typedef (ty_named (B "i64")) (B "Id") [] []] [] []
+       [StructLike SKStruct (B "Point") [Field 1 (B "x") ReqDefault (ty_named (B "double")) None [] [];
+                                         Field 2 (B "y") ReqDefault (ty_named (B "double")) None [] []] [] []]
+       [] [] [] None.
+Definition ex_api : file :=
+  File (B "svc/api.thrift")
+       [Include (B "../base/types.thrift") (Some (B "base/types.thrift")) None] []
+       [Namespace (B "go") (B "c15.api") []; Namespace (B "go") (B "ignored") []; Namespace (B "*") (B "a") []; Namespace (B "*") (B "b") []]
+       [Typedef (ty_named (B "types.Id")) (B "LocalId") [Anno (B "note") [B "x"; B "y"]] (B "// id")]
+       [Constant (B "AGES") (ty_plain (B "map") (Some (ty_named (B "string"))) (Some (ty_named (B "i32"))) [] [])
+                 (CMap [(CLiteral (B "a"), CInt 1); (CLiteral (B "b"), CIdent (B "true") None)]) [] []]
+       [Enum (B "Colour") [EnumValue (B "RED") 1 [Anno (B "w") [B "h"]] []; EnumValue (B "BLUE") (-5) [] []] [] []]
+       [StructLike SKStruct (B "Request")
+          [Field 1 (B "id") ReqRequired (ty_named (B "LocalId")) None [Anno (B "k") [B "v1"; B "v2"]] [];
+           Field (-4) (B "where") ReqOptional (ty_named (B "types.Point")) None [] [];
+           Field 7 (B "cs") ReqDefault (ty_plain (B "list") None (Some (ty_named (B "Colour"))) [] [])
+                 (Some (CList [CIdent (B "Colour.RED") None; CInt 5; CDouble 4602678819172646912%N])) [] []] [] []]
+       [] []
+       [Service (B "Api") (B "") [Function (B "fire") true true (ty_named (B "void"))
+                                   [Field 1 (B "r") ReqDefault (ty_named (B "Request")) None [] []] [] [] []] [] None []]
+       None.
+Definition ex_program : program := [(B "svc/api.thrift", ex_api); (B "base/types.thrift", ex_types)].
+Local Close Scope string_scope.
+
+Lemma ex_hypotheses :
+  file_annos_ok ex_api = true /\ distinct_basenames ex_api = true /\ includes_plain ex_api = true /\
+  prog_ok ex_program = true /\ wfb (enc_fdesc (descriptor_of ex_api)) = true /\ fdesc_ok (descriptor_of ex_api) = true.
+Proof. vm_compute. repeat split. Qed.
